@@ -17,6 +17,25 @@ CLAIMED = {
             "Trusts vf/symx exact ring + Sym scalar, numpy/autoray structural ops on object arrays, the hand-transcribed "
             "reference table; float rounding not verified (A-float-as-real); numpy interface path only.",
             "DESIGN.md 4 C02", "E2"),
+    "C07": ("proof",
+            "attribute predicate as postcondition on each member's real matrix kernel, executed on exact symbolic "
+            "scalars; Laurent-polynomial normal-form identities",
+            "The seven attribute sets are read from the real module each run; for every member with a closed-form kernel "
+            "the defining predicate (M.M=I, wire-permutation invariance, zero off-diagonal, U(a)U(b)=U(a+b), G.G^dagger~I, "
+            "batched==stack) is proved for all parameter values. Variable-arity members are size-bounded; template members "
+            "of supports_broadcasting and Rot's accumulation law are listed unverified.",
+            "Trusts vf/symx, numpy/autoray structural ops; numpy interface; batch size 2; DiagonalQubitUnitary and "
+            "templates outside reach (bounded stand-in / unverified).",
+            "DESIGN.md 4 C07", "E2"),
+    "C09": ("proof",
+            "contract on each parametrized gate: exponent differences of exp(i*theta_k) in the exact Laurent normal form of "
+            "the real matrix lie within the declared frequencies; violations need a DFT replay on the real operator",
+            "For every parametrized named gate and parameter the set of exponent differences of the exact symbolic matrix "
+            "(a superset of the spectrum of every expectation value, for every state, observable and surrounding circuit) "
+            "is contained in the declared frequencies; all other parameters stay symbolic.",
+            "Trusts vf/symx and the bilinearity lemma; numpy interface path; MultiRZ/PauliRot/PCPhase size-bounded; PSWAP "
+            "declares no frequencies (no claim).",
+            "DESIGN.md 4 C09", "E2"),
 }
 
 
